@@ -70,9 +70,9 @@ class TakeLast(Blockwise):
 
     @staticmethod
     def operation(a, skipna=True):
-        if a.ndim == 1 and a.empty:
+        if a.empty:
             # nothing to carry over (also with skipna=False, where the empty
-            # tail would otherwise travel on as an empty Series)
+            # tail would otherwise travel on as an empty Series/DataFrame)
             return None
         if skipna:
             if a.ndim == 1 and a.isna().all():
